@@ -64,6 +64,9 @@ def _forms(name, default_cs, new_names=()):
         ('different', 'role:u and not role:v'),
         ('list', [['role:u'], ['role:v', 'role:w']]),
         ('list-blank', [['role:Cloud Admin'], ['role:v', 'role:w']]),
+        ('list-empty-alternatives', [[], []]),
+        ('list-empty-string', ['']),
+        ('list-one-empty', [[], ['role:u']]),
         ('quoted', "'lit':%(k)s or role:u"),
         ('dquoted', '"lit":%(k)s or role:u'),
         ('unicode', 'role:u or role:\u00e9\U0001f600'),
@@ -118,14 +121,16 @@ def _file_for(ctx, kind, tool, small=False):
                                    'different', 'list', 'list-blank'])
         pick('q', 'role:q or role:x', allow=['absent', 'variant', 'dquoted',
                                              'lookalike', 'listdefault'])
-        pick('u', None, allow=['absent', 'list', 'dquoted', 'unicode'])
+        pick('u', None, allow=['absent', 'list', 'dquoted', 'unicode',
+                               'list-empty-alternatives'])
     else:
         pick('p', 'role:p')
         pick('q', 'role:q or role:x', allow=['absent', 'default', 'variant',
                                              'list', 'dquoted', 'lookalike',
                                              'listdefault'])
         pick('u', None, allow=['absent', 'different', 'list', 'dquoted',
-                               'unicode'])
+                               'unicode', 'list-empty-alternatives',
+                               'list-empty-string', 'list-one-empty'])
     if kind in ('renamed', 'all'):
         pick('old', 'role:o', ['n'], allow=['absent', 'default', 'different',
                                             'alias', 'list'])
@@ -203,7 +208,7 @@ def run_convert(ctx, kind, small=False):
         env.close()
 
 
-def run_upgrade(ctx, kind, fmt, small=False):
+def run_upgrade(ctx, kind, fmt, small=False, namespaces=1):
     from oslo_config import cfg
     from oslo_policy import generator
     common.set_ctx(ctx)
@@ -213,14 +218,26 @@ def run_upgrade(ctx, kind, fmt, small=False):
         infile = 'in.' + ('json' if fmt == 'json' else 'yaml')
         env.write(infile, rules, fmt='json' if fmt == 'json' else 'yaml')
         out = env.path('out.' + fmt)
-        detail = {'file': rules, 'defaults': kind, 'format': fmt}
+        detail = {'file': rules, 'defaults': kind, 'format': fmt,
+                  'namespaces': namespaces}
         conf = cfg.ConfigOpts()
         with mock.patch('oslo_policy.generator.get_policies_dict') as gp:
-            gp.return_value = {'ns': _defaults(kind)}
+            dfl = _defaults(kind)
+            if namespaces == 1:
+                gp.return_value = {'ns': dfl}
+                nsargs = ['--namespace', 'ns']
+            else:
+                # every default in a namespace of its own (the successors of
+                # a split name then come from different namespaces)
+                gp.return_value = {'ns%d' % i: [d]
+                                   for i, d in enumerate(dfl)}
+                nsargs = []
+                for i in range(len(dfl)):
+                    nsargs += ['--namespace', 'ns%d' % i]
             try:
                 generator.upgrade_policy(
-                    args=['--policy', env.path(infile), '--namespace', 'ns',
-                          '--output-file', out, '--format', fmt], conf=conf)
+                    args=['--policy', env.path(infile)] + nsargs +
+                    ['--output-file', out, '--format', fmt], conf=conf)
             except Exception as exc:
                 ctx.require(False, 'upgrade:tool-fails',
                             key='upgrade:tool-fails:%s' % type(exc).__name__,
@@ -359,7 +376,9 @@ def _cubes(tier, seed, fmts=None):
 HARNESSES = {
     'convert': {'fn': run_convert, 'cubes': lambda t, s: _cubes(t, s)},
     'upgrade': {'fn': run_upgrade,
-                'cubes': lambda t, s: _cubes(t, s, ['yaml', 'json'])},
+                'cubes': lambda t, s: _cubes(t, s, ['yaml', 'json']) + [
+                    dict(c, namespaces=2) for c in _cubes(t, s, ['yaml'])
+                    if c['kind'] in ('split', 'renamed', 'all')]},
     'generate': {'fn': run_generate, 'cubes': lambda t, s: _cubes(t, s)},
     'redundant': {'fn': run_redundant, 'cubes': lambda t, s: _cubes(t, s)},
 }
